@@ -1027,3 +1027,357 @@ Proof.
         exists l1. split; [apply Steps_one; [discriminate|exact E1|exact (VP_fl _ _ _ _ V1)]|].
         cbn [map concat]. unfold t_item. rewrite Ea, Ec. cbn [t_arg app rev]. exact V1.
 Qed.
+
+Ltac lnorm := repeat (first [rewrite rev_app_distr | rewrite <- app_assoc | progress cbn [app rev]]).
+Ltac lnorm_in H := repeat (first [rewrite rev_app_distr in H | rewrite <- app_assoc in H | progress cbn [app rev] in H]).
+
+Definition cargs_ok (a : cargs) : Prop := WS (ca_ws a) /\ items_ok (ca_items a).
+
+Lemma HeadC_not_lparen s : HeadC s -> forall t, s <> 40 :: t.
+Proof.
+  destruct 1 as [t0|s r w Ed Hr|t0]; intros t E; try discriminate. subst s. rewrite decode_ascii_cons in Ed by lia. injection Ed as <- _. vm_compute in Hr. discriminate.
+Qed.
+
+Lemma Disp_fl rest o s l : Disp rest o s l -> fl l = FOk.
+Proof. destruct 1 as [? ? ? V|? ? ? ? ? V|? ? ? V|? ? ? V|? ? ? V|? ? ? V]; exact (VP_fl _ _ _ _ V). Qed.
+
+Lemma r_args_text a R : r_args a ++ R = 40 :: ca_ws a ++ items_text (ca_items a) R.
+Proof. unfold r_args, items_text. cbn [app]. rewrite <- !app_assoc. reflexivity. Qed.
+
+Lemma args_fwd a R l o : VP l [] (r_args a ++ R) o -> cargs_ok a ->
+  exists l', Steps SLeftParen l SRightParen l' /\ VP l' [] (41 :: R) (rev ((LPAREN, [40]) :: concat (map t_item (ca_items a))) ++ o).
+Proof.
+  intros HV [Hws Hit]. rewrite r_args_text in HV. pose proof (items_head (ca_items a) R (proj1 Hit)) as HC.
+  destruct (fwd_lparen l (ca_ws a) _ o HV Hws (Head_ns _ (HeadC_Head _ HC))) as (l1 & E1 & V1).
+  destruct (disp_args l1 [] _ _ V1 WS_nil (HeadC_Head _ HC) (HeadC_not_lparen _ HC)) as (s2 & l2 & E2 & D2).
+  destruct (items_fwd (ca_items a) R s2 l2 _ D2 Hit) as (l' & St & V').
+  exists l'. split.
+  - eapply Steps_step; [discriminate|exact E1|exact (VP_fl _ _ _ _ V1)|]. eapply Steps_step; [discriminate|exact E2|exact (Disp_fl _ _ _ _ D2)|exact St].
+  - cbn [rev]. rewrite <- app_assoc. cbn [app]. exact V'.
+Qed.
+
+(* ---- outputs and the rest of a task, from just after the dependencies' ")" ---- *)
+Definition outs_wf (o : couts) : Prop :=
+  match o with
+  | ONone => True
+  | OBare w1 (AString s) w2 => WS w1 /\ Str s /\ IWS w2
+  | OBare w1 (AIdent s) w2 => WS w1 /\ Ident s /\ s <> [] /\ WS w2
+  | OParen w1 args w2 => WS w1 /\ cargs_ok args /\ WS w2
+  end.
+
+Lemma t_args_eq a : t_args a = (LPAREN, [40]) :: concat (map t_item (ca_items a)) ++ [(RPAREN, [41])].
+Proof. reflexivity. Qed.
+
+Lemma r_body_head b R : exists t, r_body b ++ R = 123 :: t.
+Proof. rewrite r_body_text. eauto. Qed.
+
+Lemma task_tail_fwd wd outs body R l o :
+  VP l [] (41 :: wd ++ r_outs outs ++ r_body body ++ R) o -> WS wd -> outs_wf outs -> body_ok body -> NoBr R ->
+  exists l', Steps SRightParen l SStart l' /\ VP l' [] R (rev ((RPAREN, [41]) :: t_outs outs ++ t_body body) ++ o).
+Proof.
+  intros HV Hwd Ho Hb HN. destruct (r_body_head body R) as (tb & Eb).
+  destruct outs as [|w1 a w2|w1 args w2]; cbn [r_outs app] in HV.
+  - rewrite Eb in HV. destruct (fwd_rparen l wd _ o SLeftBrace HV Hwd (RT_lbrace _)) as (l1 & E1 & V1). rewrite <- Eb in V1.
+    destruct (fwd_body body R l1 _ V1 Hb HN) as (l' & St & V'). exists l'. split.
+    + eapply Steps_step; [discriminate|exact E1|exact (VP_fl _ _ _ _ V1)|exact St].
+    + cbn [t_outs app rev]. rewrite <- app_assoc. cbn [app]. exact V'.
+  - unfold k_output in HV. cbn [app] in HV.
+    destruct (fwd_rparen l wd _ o SOutputOp HV Hwd (RT_output _)) as (l1 & E1 & V1).
+    destruct a as [s|s]; cbn [outs_wf arg_str] in Ho, V1.
+    + destruct Ho as (Hw1 & Hs & Hw2). unfold b_quote in V1. rewrite <- !app_assoc in V1. cbn [app] in V1.
+      destruct (disp_output l1 w1 _ _ V1 Hw1 (HO_str _)) as (s2 & l2 & E2 & D2).
+      destruct (Disp_byte_inv _ _ _ _ 34 _ D2 eq_refl ltac:(lia) eq_refl) as (H34 & _). destruct (H34 eq_refl) as [-> V2].
+      destruct (fwd_string l2 s _ _ V2 Hs) as (l3 & E3 & V3).
+      rewrite Eb in E3, V3. rewrite after_string_args in E3; [|destruct w2; discriminate|apply eolb_iws; [exact Hw2|reflexivity]].
+      destruct (disp_args l3 w2 _ _ V3 (IWS_WS _ Hw2) (H_lb _) ltac:(discriminate)) as (s4 & l4 & E4 & D4).
+      destruct (Disp_byte_inv _ _ _ _ 123 _ D4 eq_refl ltac:(lia) eq_refl) as (_ & _ & _ & H123 & _). destruct (H123 eq_refl) as [-> V4].
+      rewrite <- Eb in V4. destruct (fwd_body body R l4 _ V4 Hb HN) as (l' & St & V'). exists l'. split.
+      * eapply Steps_step; [discriminate|exact E1|exact (VP_fl _ _ _ _ V1)|]. eapply Steps_step; [discriminate|exact E2|exact (VP_fl _ _ _ _ V2)|].
+        eapply Steps_step; [discriminate|exact E3|exact (VP_fl _ _ _ _ V3)|]. eapply Steps_step; [discriminate|exact E4|exact (VP_fl _ _ _ _ V4)|exact St].
+      * cbn [t_outs t_arg app rev]. rewrite <- !app_assoc. cbn [app]. exact V'.
+    + destruct Ho as (Hw1 & Hid & Hne & Hw2). rewrite <- !app_assoc in V1.
+      destruct (ident_first _ s (w2 ++ r_body body ++ R) Hid Hne) as (r & w & Ed & Edn & Hr & Hw).
+      destruct (disp_output l1 w1 _ _ V1 Hw1 (HO_id _ r w Ed Hr)) as (s2 & l2 & E2 & D2).
+      destruct (Disp_id_inv _ _ _ _ r w D2 Ed Hr) as [-> V2].
+      assert (F : firstn w (s ++ w2 ++ r_body body ++ R) = firstn w s) by (rewrite firstn_app; replace (w - length s)%nat with 0%nat by lia; cbn [firstn]; apply app_nil_r).
+      assert (K : skipn w (s ++ w2 ++ r_body body ++ R) = skipn w s ++ w2 ++ r_body body ++ R) by (rewrite skipn_app; replace (w - length s)%nat with 0%nat by lia; reflexivity).
+      rewrite F, K in V2.
+      assert (Hnm : rev (rev (firstn w s)) ++ skipn w s = s) by (rewrite rev_involutive; apply firstn_skipn).
+      assert (Hrunes : ident_runes (S (length (skipn w s))) (skipn w s) = true).
+      { unfold Ident in Hid. destruct (ident_runes_step _ s Hne Hid) as (r' & w' & Ed' & _ & _ & Hrest). rewrite Edn in Ed'. injection Ed' as <- <-.
+        apply (ident_runes_min _ _ Hrest). }
+      rewrite Eb in V2.
+      destruct (fwd_ident l2 _ (skipn w s) w2 _ _ SLeftBrace V2 Hrunes Hw2 ltac:(rewrite Hnm; apply IT_lbrace)) as (l3 & E3 & V3). rewrite Hnm, <- Eb in V3.
+      destruct (fwd_body body R l3 _ V3 Hb HN) as (l' & St & V'). exists l'. split.
+      * eapply Steps_step; [discriminate|exact E1|exact (VP_fl _ _ _ _ V1)|]. eapply Steps_step; [discriminate|exact E2|exact (VP_fl _ _ _ _ V2)|].
+        eapply Steps_step; [discriminate|exact E3|exact (VP_fl _ _ _ _ V3)|exact St].
+      * cbn [t_outs t_arg app rev]. rewrite <- !app_assoc. cbn [app]. exact V'.
+  - destruct Ho as (Hw1 & Ha & Hw2). unfold k_output in HV. cbn [app] in HV.
+    destruct (fwd_rparen l wd _ o SOutputOp HV Hwd (RT_output _)) as (l1 & E1 & V1).
+    rewrite <- !app_assoc in V1. rewrite r_args_text in V1.
+    destruct (disp_output l1 w1 _ _ V1 Hw1 (HO_lp _)) as (s2 & l2 & E2 & D2).
+    destruct (Disp_byte_inv _ _ _ _ 40 _ D2 eq_refl ltac:(lia) eq_refl) as (_ & _ & H40 & _). destruct (H40 eq_refl) as [-> V2].
+    rewrite <- r_args_text in V2.
+    destruct (args_fwd args _ l2 _ V2 Ha) as (l3 & St3 & V3).
+    rewrite Eb in V3. destruct (fwd_rparen l3 w2 _ _ SLeftBrace V3 Hw2 (RT_lbrace _)) as (l4 & E4 & V4). rewrite <- Eb in V4.
+    destruct (fwd_body body R l4 _ V4 Hb HN) as (l' & St & V'). exists l'. split.
+    + eapply Steps_step; [discriminate|exact E1|exact (VP_fl _ _ _ _ V1)|]. eapply Steps_step; [discriminate|exact E2|exact (VP_fl _ _ _ _ V2)|].
+      eapply Steps_trans; [exact St3|]. eapply Steps_step; [discriminate|exact E4|exact (VP_fl _ _ _ _ V4)|exact St].
+    + cbn [t_outs]. rewrite t_args_eq. lnorm_in V'. lnorm. exact V'.
+Qed.
+
+(* ---- statements ---- *)
+(* what the text after a statement and its gap can be: nothing, a comment/docstring, or an identifier (a name or "task") *)
+Definition SS (REST : bytes) : Prop :=
+  REST = [] \/ (exists t, REST = 35 :: t) \/ (exists r w, decode REST = (r, w) /\ is_ident r = true).
+
+Definition AtStmt (REST : bytes) (o : list tv) (s : st) (l : lx) : Prop :=
+  (s = SStart /\ exists g, WS g /\ VP l [] (g ++ REST) o) \/ (s = SHash /\ (exists t, REST = 35 :: t) /\ VP l [] REST o).
+
+Lemma AtStmt_fl REST o s l : AtStmt REST o s l -> fl l = FOk.
+Proof. intros [(_ & g & _ & V)|(_ & _ & V)]; exact (VP_fl _ _ _ _ V). Qed.
+
+Lemma SS_first REST : SS REST -> REST = [] \/ exists b t, REST = b :: t /\ b <> 123 /\ b <> 125 /\ b <> 10.
+Proof.
+  intros [->|[(t & ->)|(r & w & Ed & Hr)]]; [left; reflexivity|right; exists 35, t; repeat split; discriminate|].
+  destruct REST as [|b t]; [left; reflexivity|]. right. exists b, t. split; [reflexivity|].
+  assert (H : forall c, is_ident c = false -> c < 128 -> b <> c).
+  { intros c Hc Hlt ->. rewrite decode_ascii_cons in Ed by exact Hlt. injection Ed as <- _. congruence. }
+  repeat split; apply H; try reflexivity; lia.
+Qed.
+
+Lemma NoBr_gap g REST : WS g -> SS REST -> NoBr (g ++ REST).
+Proof.
+  intros Hg Hs. destruct g as [|b g].
+  - cbn [app]. destruct (SS_first REST Hs) as [->|(b & t & -> & H1 & H2 & _)]; [exact I|]. cbn [NoBr].
+    destruct b as [|pb]; [exact I|]. repeat (destruct pb as [pb|pb|]; try exact I); congruence.
+  - unfold WS in Hg. cbn [forallb] in Hg. apply andb_prop in Hg. destruct Hg as [Hb _]. cbn [app NoBr].
+    destruct b as [|pb]; [exact I|]. repeat (destruct pb as [pb|pb|]; try exact I); discriminate.
+Qed.
+
+Lemma to_hash T o s l : AtStmt (35 :: T) o s l -> exists l', Steps s l SHash l' /\ VP l' [] (35 :: T) o.
+Proof.
+  intros [(-> & g & Hg & V)|(-> & _ & V)].
+  - destruct (fwd_start_hash l g T o V Hg) as (l' & E & V'). exists l'. split; [apply Steps_one; [discriminate|exact E|exact (VP_fl _ _ _ _ V')]|exact V'].
+  - exists l. split; [constructor|exact V].
+Qed.
+
+Lemma at_start REST o s l r w : AtStmt REST o s l -> decode REST = (r, w) -> is_ident r = true ->
+  s = SStart /\ exists g, WS g /\ VP l [] (g ++ REST) o.
+Proof.
+  intros [H|(_ & (t & ->) & _)] Ed Hr; [exact H|]. rewrite decode_ascii_cons in Ed by lia. injection Ed as <- _. vm_compute in Hr. discriminate.
+Qed.
+
+(* after the ")" that ends a statement *)
+Lemma rparen_end l g REST o : VP l [] (41 :: g ++ REST) o -> WS g -> SS REST ->
+  exists s' l', step SRightParen l = (s', l') /\ AtStmt REST ((RPAREN, [41]) :: o) s' l'.
+Proof.
+  intros HV Hg [->|[(t & ->)|(r & w & Ed & Hr)]].
+  - destruct (fwd_rparen l g [] o SStart HV Hg RT_eof) as (l' & E & V'). exists SStart, l'. split; [exact E|]. left. split; [reflexivity|]. exists []. split; [reflexivity|exact V'].
+  - destruct (fwd_rparen l g _ o SHash HV Hg (RT_hash t)) as (l' & E & V'). exists SHash, l'. split; [exact E|]. right. split; [reflexivity|]. split; [eauto|exact V'].
+  - destruct (fwd_rparen l g _ o SStart HV Hg (RT_ident REST r w Ed Hr)) as (l' & E & V'). exists SStart, l'. split; [exact E|]. left. split; [reflexivity|]. exists []. split; [reflexivity|exact V'].
+Qed.
+
+Definition gap_eol (g REST : bytes) : Prop := WS g /\ (eol_start g = true \/ (g = [] /\ REST = [])).
+
+Lemma eol_start_app g x : eol_start g = true -> eol_start (g ++ x) = true.
+Proof.
+  unfold eol_start, no_eol_start. destruct g as [|b g]; [discriminate|]. cbn [app].
+  destruct b as [|pb]; [auto|]. repeat (destruct pb as [pb|pb|]; auto).
+  destruct g as [|c g]; [discriminate|]. cbn [app]. auto.
+Qed.
+
+Lemma gap_eol_or_eof g REST : gap_eol g REST -> eol_or_eof (g ++ REST).
+Proof. intros [_ [H|[-> ->]]]; [right; apply eol_start_app; exact H|left; reflexivity]. Qed.
+
+Definition name_ok (n : bytes) : Prop := Ident n /\ n <> [] /\ bytes_eqb n k_task = false.
+
+Lemma bytes_eqb_neq a b : bytes_eqb a b = false -> a <> b.
+Proof.
+  revert b. induction a as [|x a IH]; intros [|y b] H E; try discriminate.
+  injection E as -> ->. cbn [bytes_eqb] in H. rewrite N.eqb_refl in H. cbn [andb] in H. exact (IH b H eq_refl).
+Qed.
+
+Definition comment_ok (text : bytes) : Prop := no_byte 10 text = true /\ last_not 13 text = true.
+
+Definition stmt_wf (st : cstmt) (g REST : bytes) : Prop :=
+  match st with
+  | CComment text => comment_ok text /\ gap_eol g REST
+  | CAssignS name w1 w2 s => name_ok name /\ WS w1 /\ WS w2 /\ Str s /\ gap_eol g REST
+  | CAssignF name w1 w2 f w3 args => name_ok name /\ WS w1 /\ WS w2 /\ Ident f /\ f <> [] /\ WS w3 /\ cargs_ok args /\ WS g
+  | CAssignI name w1 w2 i => name_ok name /\ WS w1 /\ WS w2 /\ Ident i /\ i <> [] /\ WS g /\ REST = []
+  | CTask doc wt name wn deps wd outs body =>
+    match doc with Some (d, w) => comment_ok d /\ d <> [] /\ WS w /\ eol_start w = true | None => True end /\
+    WS wt /\ Ident name /\ (name <> [] -> wt <> []) /\ WS wn /\ cargs_ok deps /\ WS wd /\ outs_wf outs /\ body_ok body /\ WS g
+  end.
+
+(* the assignment prefix: NAME ws ":=" ws, up to the dispatch on the value *)
+Lemma assign_prefix name w1 w2 rest REST o s l :
+  AtStmt (name ++ w1 ++ k_declare ++ w2 ++ rest) o s l -> name_ok name -> WS w1 -> WS w2 -> HeadD rest -> REST = rest ->
+  exists s' l', Steps s l s' l' /\ Disp rest ((DECLARE, k_declare) :: (IDENT, name) :: o) s' l'.
+Proof.
+  intros HA (Hid & Hne & Hk) Hw1 Hw2 Hh _.
+  destruct (ident_first _ name (w1 ++ k_declare ++ w2 ++ rest) Hid Hne) as (r & w & Ed & _ & Hr & _).
+  destruct (at_start _ _ _ _ r w HA Ed Hr) as (-> & g & Hg & V0).
+  assert (Hnid : nid (w1 ++ k_declare ++ w2 ++ rest)) by (apply nid_ws; [exact Hw1|apply nid_cons; [lia|reflexivity]]).
+  destruct (fwd_start_ident l g name _ o V0 Hg Hid Hne (bytes_eqb_neq _ _ Hk) Hnid) as (l1 & E1 & V1).
+  unfold Ident in Hid.
+  destruct (fwd_ident l1 [] name w1 _ o SDeclare V1 Hid Hw1 ltac:(cbn [rev app]; apply IT_declare; exact Hk)) as (l2 & E2 & V2). cbn [rev app] in V2.
+  destruct (disp_declare l2 w2 rest _ V2 Hw2 Hh) as (s3 & l3 & E3 & D3).
+  exists s3, l3. split; [|exact D3].
+  eapply Steps_step; [discriminate|exact E1|exact (VP_fl _ _ _ _ V1)|]. eapply Steps_step; [discriminate|exact E2|exact (VP_fl _ _ _ _ V2)|].
+  apply Steps_one; [discriminate|exact E3|exact (Disp_fl _ _ _ _ D3)].
+Qed.
+
+Lemma stmt_fwd st g REST o s l : AtStmt (r_stmt st ++ g ++ REST) o s l -> stmt_wf st g REST -> SS REST ->
+  exists s' l', Steps s l s' l' /\ AtStmt REST (rev (t_stmt st) ++ o) s' l'.
+Proof.
+  intros HA Hwf HS. destruct st as [text|name w1 w2 str|name w1 w2 f w3 args|name w1 w2 i|doc wt name wn deps wd outs body]; cbn [r_stmt stmt_wf t_stmt] in *.
+  - (* comment *)
+    destruct Hwf as [[H10 H13] Hg]. cbn [app] in HA. rewrite <- ?app_assoc in HA.
+    destruct (to_hash _ _ _ _ HA) as (l1 & St1 & V1). destruct (fwd_hash l1 _ _ V1) as (l2 & E2 & V2).
+    destruct (fwd_comment l2 text _ _ V2 H10 H13 (gap_eol_or_eof _ _ Hg)) as (l3 & E3 & V3).
+    exists SStart, l3. split.
+    + eapply Steps_trans; [exact St1|]. eapply Steps_step; [discriminate|exact E2|exact (VP_fl _ _ _ _ V2)|]. apply Steps_one; [discriminate|exact E3|exact (VP_fl _ _ _ _ V3)].
+    + left. split; [reflexivity|]. exists g. split; [apply Hg|exact V3].
+  - (* NAME := "string" *)
+    destruct Hwf as (Hn & Hw1 & Hw2 & Hs & Hg). rewrite <- ?app_assoc in HA. unfold b_quote in HA at 1. cbn [app] in HA.
+    destruct (assign_prefix name w1 w2 _ _ o s l HA Hn Hw1 Hw2 (HD_str _) eq_refl) as (s1 & l1 & St1 & D1).
+    destruct (Disp_byte_inv _ _ _ _ 34 _ D1 eq_refl ltac:(lia) eq_refl) as (H34 & _). destruct (H34 eq_refl) as [-> V1].
+    unfold b_quote in V1. cbn [app] in V1.
+    destruct (fwd_string l1 str _ _ V1 Hs) as (l2 & E2 & V2).
+    assert (Ha : after_string (g ++ REST) = SStart).
+    { unfold after_string. destruct (gap_eol_or_eof _ _ Hg) as [->|He]; [reflexivity|]. destruct (g ++ REST); [reflexivity|]. rewrite (eol_start_eolb _ He). reflexivity. }
+    rewrite Ha in E2. exists SStart, l2. split.
+    + eapply Steps_trans; [exact St1|]. apply Steps_one; [discriminate|exact E2|exact (VP_fl _ _ _ _ V2)].
+    + left. split; [reflexivity|]. exists g. split; [apply Hg|]. cbn [rev app]. exact V2.
+  - (* NAME := f(args) *)
+    destruct Hwf as (Hn & Hw1 & Hw2 & Hf & Hfne & Hw3 & Ha & Hg). rewrite <- ?app_assoc in HA.
+    destruct (ident_first _ f (w3 ++ r_args args ++ g ++ REST) Hf Hfne) as (r & w & Ed & Edn & Hr & Hw).
+    destruct (assign_prefix name w1 w2 _ _ o s l HA Hn Hw1 Hw2 (HD_id _ r w Ed Hr) eq_refl) as (s1 & l1 & St1 & D1).
+    destruct (Disp_id_inv _ _ _ _ r w D1 Ed Hr) as [-> V1].
+    assert (F : firstn w (f ++ w3 ++ r_args args ++ g ++ REST) = firstn w f) by (rewrite firstn_app; replace (w - length f)%nat with 0%nat by lia; cbn [firstn]; apply app_nil_r).
+    assert (K : skipn w (f ++ w3 ++ r_args args ++ g ++ REST) = skipn w f ++ w3 ++ r_args args ++ g ++ REST) by (rewrite skipn_app; replace (w - length f)%nat with 0%nat by lia; reflexivity).
+    rewrite F, K in V1.
+    assert (Hnm : rev (rev (firstn w f)) ++ skipn w f = f) by (rewrite rev_involutive; apply firstn_skipn).
+    assert (Hrunes : ident_runes (S (length (skipn w f))) (skipn w f) = true).
+    { unfold Ident in Hf. destruct (ident_runes_step _ f Hfne Hf) as (r' & w' & Ed' & _ & _ & Hrest). rewrite Edn in Ed'. injection Ed' as <- <-.
+      apply (ident_runes_min _ _ Hrest). }
+    rewrite r_args_text in V1.
+    destruct (fwd_ident l1 _ (skipn w f) w3 _ _ SLeftParen V1 Hrunes Hw3 ltac:(rewrite Hnm; apply IT_lparen)) as (l2 & E2 & V2). rewrite Hnm, <- r_args_text in V2.
+    destruct (args_fwd args _ l2 _ V2 Ha) as (l3 & St3 & V3).
+    destruct (rparen_end l3 g REST _ V3 Hg HS) as (s4 & l4 & E4 & A4).
+    exists s4, l4. split.
+    + eapply Steps_trans; [exact St1|]. eapply Steps_step; [discriminate|exact E2|exact (VP_fl _ _ _ _ V2)|].
+      eapply Steps_trans; [exact St3|]. apply Steps_one; [discriminate|exact E4|exact (AtStmt_fl _ _ _ _ A4)].
+    + rewrite t_args_eq. lnorm. destruct A4 as [(-> & g4 & Hg4 & V4)|(-> & Ht & V4)]; [left|right]; (split; [reflexivity|]).
+      * exists g4. split; [exact Hg4|]. lnorm_in V4. exact V4.
+      * split; [exact Ht|]. lnorm_in V4. exact V4.
+  - (* NAME := ident, only as the last statement *)
+    destruct Hwf as (Hn & Hw1 & Hw2 & Hi & Hine & Hg & ->). rewrite <- ?app_assoc in HA. rewrite app_nil_r in HA.
+    destruct (ident_first _ i g Hi Hine) as (r & w & Ed & Edn & Hr & Hw).
+    destruct (assign_prefix name w1 w2 _ _ o s l HA Hn Hw1 Hw2 (HD_id _ r w Ed Hr) eq_refl) as (s1 & l1 & St1 & D1).
+    destruct (Disp_id_inv _ _ _ _ r w D1 Ed Hr) as [-> V1].
+    assert (F : firstn w (i ++ g) = firstn w i) by (rewrite firstn_app; replace (w - length i)%nat with 0%nat by lia; cbn [firstn]; apply app_nil_r).
+    assert (K : skipn w (i ++ g) = skipn w i ++ g) by (rewrite skipn_app; replace (w - length i)%nat with 0%nat by lia; reflexivity).
+    rewrite F, K in V1.
+    assert (Hnm : rev (rev (firstn w i)) ++ skipn w i = i) by (rewrite rev_involutive; apply firstn_skipn).
+    assert (Hrunes : ident_runes (S (length (skipn w i))) (skipn w i) = true).
+    { unfold Ident in Hi. destruct (ident_runes_step _ i Hine Hi) as (r' & w' & Ed' & _ & _ & Hrest). rewrite Edn in Ed'. injection Ed' as <- <-.
+      apply (ident_runes_min _ _ Hrest). }
+    rewrite <- (app_nil_r g) in V1.
+    destruct (fwd_ident l1 _ (skipn w i) g [] _ SStart V1 Hrunes Hg ltac:(rewrite Hnm; apply IT_eof)) as (l2 & E2 & V2). rewrite Hnm in V2.
+    exists SStart, l2. split.
+    + eapply Steps_trans; [exact St1|]. apply Steps_one; [discriminate|exact E2|exact (VP_fl _ _ _ _ V2)].
+    + left. split; [reflexivity|]. exists []. split; [reflexivity|]. cbn [rev app]. exact V2.
+  - (* task *)
+    destruct Hwf as (Hdoc & Hwt & Hname & Hwtne & Hwn & Hdeps & Hwd & Houts & Hbody & Hg).
+    (* first the docstring, if any, then arrive at the keyword *)
+    assert (Hkw : exists s1 l1 g1, Steps s l s1 l1 /\ s1 = SStart /\ WS g1 /\
+              VP l1 [] (g1 ++ k_task ++ wt ++ name ++ wn ++ r_args deps ++ wd ++ r_outs outs ++ r_body body ++ g ++ REST)
+                 (rev (match doc with Some (d, _) => [(HASH, [35]); (COMMENT, d)] | None => [] end) ++ o)).
+    { destruct doc as [[d w]|].
+      - destruct Hdoc as ([H10 H13] & Hdne & Hw & He). cbn [app] in HA. rewrite <- ?app_assoc in HA.
+        destruct (to_hash _ _ _ _ HA) as (l1 & St1 & V1). destruct (fwd_hash l1 _ _ V1) as (l2 & E2 & V2).
+        destruct (fwd_comment l2 d _ _ V2 H10 H13 ltac:(right; apply eol_start_app; exact He)) as (l3 & E3 & V3).
+        exists SStart, l3, w. split; [|split; [reflexivity|split; [exact Hw|cbn [rev app]; exact V3]]].
+        eapply Steps_trans; [exact St1|]. eapply Steps_step; [discriminate|exact E2|exact (VP_fl _ _ _ _ V2)|]. apply Steps_one; [discriminate|exact E3|exact (VP_fl _ _ _ _ V3)].
+      - cbn [app] in HA. rewrite <- ?app_assoc in HA.
+        destruct (at_start _ _ _ _ 116 1%nat HA ltac:(reflexivity) ltac:(reflexivity)) as (-> & g1 & Hg1 & V1).
+        exists SStart, l, g1. split; [constructor|]. split; [reflexivity|]. split; [exact Hg1|exact V1]. }
+    destruct Hkw as (s1 & l1 & g1 & St1 & -> & Hg1 & V1).
+    set (TAIL := r_args deps ++ wd ++ r_outs outs ++ r_body body ++ g ++ REST) in *.
+    assert (HT : exists t', TAIL = 40 :: t') by (unfold TAIL; rewrite r_args_text; eauto). destruct HT as (t' & ET).
+    assert (Hafter : nid (wt ++ name ++ wn ++ TAIL)).
+    { destruct wt as [|c wt0].
+      - destruct name as [|b0 name0]; [|exfalso; apply Hwtne; [discriminate|reflexivity]]. cbn [app]. apply nid_ws; [exact Hwn|]. rewrite ET. apply nid_cons; [lia|reflexivity].
+      - unfold WS in Hwt. cbn [forallb] in Hwt. apply andb_prop in Hwt. destruct Hwt as [Hc _]. destruct (ws_byte_facts c Hc) as (A & _ & C). cbn [app]. apply nid_cons; assumption. }
+    destruct (fwd_start_task l1 g1 _ _ V1 Hg1 Hafter) as (l2 & E2 & V2).
+    assert (Hnm4 : exists l4, Steps STaskKeyword l2 SLeftParen l4 /\
+              VP l4 [] TAIL ((IDENT, name) :: (TASK, k_task) :: rev (match doc with Some (d, _) => [(HASH, [35]); (COMMENT, d)] | None => [] end) ++ o)).
+    { destruct name as [|b0 name0].
+      - cbn [app] in V2. rewrite (app_assoc wt wn) in V2.
+        destruct (fwd_taskkw l2 (wt ++ wn) TAIL _ V2 (WS_app _ _ Hwt Hwn) ltac:(rewrite ET; apply ns_cons; [lia|reflexivity])) as (l3 & E3 & V3).
+        rewrite ET in V3. destruct (fwd_taskname l3 [] [] t' _ V3 eq_refl WS_nil) as (l4 & E4 & V4). rewrite <- ET in V4.
+        exists l4. split; [|exact V4]. eapply Steps_step; [discriminate|exact E3|exact (VP_fl _ _ _ _ V3)|]. apply Steps_one; [discriminate|exact E4|exact (VP_fl _ _ _ _ V4)].
+      - destruct (ident_first _ (b0 :: name0) (wn ++ TAIL) Hname ltac:(discriminate)) as (r & w & Ed & _ & Hr & _).
+        destruct (fwd_taskkw l2 wt ((b0 :: name0) ++ wn ++ TAIL) _ V2 Hwt ltac:(apply ident_ns; rewrite Ed; exact Hr)) as (l3 & E3 & V3).
+        rewrite ET in V3. destruct (fwd_taskname l3 (b0 :: name0) wn t' _ V3 Hname Hwn) as (l4 & E4 & V4). rewrite <- ET in V4.
+        exists l4. split; [|exact V4]. eapply Steps_step; [discriminate|exact E3|exact (VP_fl _ _ _ _ V3)|]. apply Steps_one; [discriminate|exact E4|exact (VP_fl _ _ _ _ V4)]. }
+    destruct Hnm4 as (l4 & St4 & V4). unfold TAIL in V4.
+    destruct (args_fwd deps _ l4 _ V4 Hdeps) as (l5 & St5 & V5).
+    destruct (task_tail_fwd wd outs body (g ++ REST) l5 _ V5 Hwd Houts Hbody (NoBr_gap g REST Hg HS)) as (l6 & St6 & V6).
+    exists SStart, l6. split.
+    + eapply Steps_trans; [exact St1|]. eapply Steps_step; [discriminate|exact E2|exact (VP_fl _ _ _ _ V2)|].
+      eapply Steps_trans; [exact St4|]. eapply Steps_trans; [exact St5|exact St6].
+    + left. split; [reflexivity|]. exists g. split; [exact Hg|]. rewrite t_args_eq. lnorm_in V6. lnorm. 
+      destruct doc as [[d wdoc]|]; lnorm_in V6; lnorm; exact V6.
+Qed.
+
+(* ---- whole files ---- *)
+Definition stmts_text (l : list (cstmt * ws)) : bytes := concat (map (fun sg => r_stmt (fst sg) ++ snd sg) l).
+Fixpoint stmts_wf (l : list (cstmt * ws)) : Prop :=
+  match l with [] => True | (st, g) :: tl => stmt_wf st g (stmts_text tl) /\ stmts_wf tl end.
+
+Lemma stmts_SS l : stmts_wf l -> SS (stmts_text l).
+Proof.
+  destruct l as [|[st g] tl]; [left; reflexivity|]. intros [H _]. unfold stmts_text. cbn [map concat fst snd]. fold (stmts_text tl).
+  destruct st as [text|name w1 w2 str|name w1 w2 f w3 args|name w1 w2 i|doc wt name wn deps wd outs body]; cbn [r_stmt stmt_wf] in *.
+  - right. left. cbn [app]. eauto.
+  - destruct H as ((Hid & Hne & _) & _). right. right. rewrite <- !app_assoc.
+    destruct (ident_first _ name (w1 ++ k_declare ++ w2 ++ b_quote ++ str ++ b_quote ++ g ++ stmts_text tl) Hid Hne) as (r & w & Ed & _ & Hr & _). eauto.
+  - destruct H as ((Hid & Hne & _) & _). right. right. rewrite <- !app_assoc.
+    destruct (ident_first _ name (w1 ++ k_declare ++ w2 ++ f ++ w3 ++ r_args args ++ g ++ stmts_text tl) Hid Hne) as (r & w & Ed & _ & Hr & _). eauto.
+  - destruct H as ((Hid & Hne & _) & _). right. right. rewrite <- !app_assoc.
+    destruct (ident_first _ name (w1 ++ k_declare ++ w2 ++ i ++ g ++ stmts_text tl) Hid Hne) as (r & w & Ed & _ & Hr & _). eauto.
+  - destruct doc as [[d w]|]; right; [left|right]; cbn [app]; rewrite <- ?app_assoc; [eauto|]. exists 116, 1%nat. split; reflexivity.
+Qed.
+
+Lemma file_fwd : forall stmts s l o, AtStmt (stmts_text stmts) o s l -> stmts_wf stmts ->
+  exists l', Steps s l SDone l' /\ VP l' [] [] ((EOF, []) :: rev (concat (map (fun sg => t_stmt (fst sg)) stmts)) ++ o).
+Proof.
+  induction stmts as [|[st g] tl IH]; intros s l o HA Hwf.
+  - destruct HA as [(-> & g & Hg & V)|(_ & (t & E) & _)]; [|discriminate]. unfold stmts_text in V. cbn [map concat] in V. rewrite app_nil_r in V.
+    destruct (fwd_start_eof l g o V Hg) as (l' & E & V'). exists l'. split; [apply Steps_one; [discriminate|exact E|exact (VP_fl _ _ _ _ V')]|exact V'].
+  - destruct Hwf as [Hst Htl]. unfold stmts_text in HA. cbn [map concat fst snd] in HA. fold (stmts_text tl) in HA. rewrite <- app_assoc in HA.
+    destruct (stmt_fwd st g (stmts_text tl) o s l HA Hst (stmts_SS tl Htl)) as (s1 & l1 & St1 & A1).
+    destruct (IH s1 l1 _ A1 Htl) as (l' & St' & V'). exists l'. split; [eapply Steps_trans; eassumption|].
+    cbn [map concat fst]. rewrite rev_app_distr, <- app_assoc. exact V'.
+Qed.
+
+Definition file_wf (f : cfile) : Prop := WS (fst f) /\ stmts_wf (snd f).
+
+(* the lexer on a rendered file produces exactly the expected (kind, text) pairs, ending in EOF, without fault *)
+Theorem lex_render (f : cfile) : file_wf f ->
+  fst (lex (render f)) = FOk /\ map tv_of (snd (lex (render f))) = toks f.
+Proof.
+  intros [Hws Hst]. destruct (lex_tiles (render f)) as [Hfl _]. split; [exact Hfl|].
+  unfold lex in *. cbn [fst snd] in *.
+  assert (V0 : VP (init (render f)) [] (render f) []).
+  { split; [reflexivity|]. split; [reflexivity|]. split; [reflexivity|]. exists [], 0%nat, 0%nat. apply init_inv. }
+  assert (A0 : AtStmt (stmts_text (snd f)) [] SStart (init (render f))).
+  { left. split; [reflexivity|]. exists (fst f). split; [exact Hws|exact V0]. }
+  destruct (file_fwd (snd f) SStart _ [] A0 Hst) as (l' & St & V').
+  rewrite (run_steps SStart _ l' St _ Hfl). destruct V' as (_ & _ & Ho & _).
+  rewrite map_rev, Ho. cbn [rev]. rewrite app_nil_r, rev_involutive. reflexivity.
+Qed.
